@@ -202,6 +202,12 @@ class StyleExec(Exec):
             warnings.simplefilter("ignore")
             try:
                 self.doc.save(path)
+            except IndexError as e:
+                if "image already exists in document" in str(e):
+                    # the documented refusal of a second picture under a file name already in use
+                    self.ctx.count("image_name_refused_at_save")
+                    raise _Abort() from None
+                raise
             except AttributeError as e:
                 if getattr(self, "gradient", False) and "'list' object has no attribute" in str(e):
                     self.fail(("gradient_bg_color_not_saved",), f"a style whose bg_color is a list of colours (gradient, as documented) makes save raise {type(e).__name__}: {e}")
@@ -824,6 +830,27 @@ def check_readonly(ctx, case):
         shutil.rmtree(tmp, ignore_errors=True)
 
 
+def image_name_collision(ctx):
+    """A second, different picture given to an existing style under a file name already in use: refused (IndexError, as
+    add_style documents) or both styles read back their own picture - never the other style's picture."""
+    spec = {k_: v for k_, v in BASE_SPEC.items() if k_ != "bg_color"}
+    ex = StyleExec(ctx)
+    try:
+        ex.apply("new", rows=3, cols=2)
+        ex.apply("add_style", spec={"name": "One", **spec, "bg_image": ["pic.png", "89504e470d0a1a0a41414141"]})
+        ex.apply("add_style", spec={"name": "Two", **spec})
+        ex.apply("edit", idx=1, attr="bg_image", value=["pic.png", "89504e470d0a1a0a42424242"])
+        ex.apply("apply", row=0, col=0, idx=0, by_name=False)
+        ex.apply("apply", row=1, col=1, idx=1, by_name=False)
+        ex.apply("reopen", switch=False)
+        ex.finish()
+    except _Abort:
+        pass
+    finally:
+        ctx.nt_enum(1)
+        ex.close()
+
+
 def tasks(tier, seed):
     t = [("matrix", {"attr": a}) for a in BASE_SPEC]
     t.append(("adjacent", {}))
@@ -845,6 +872,7 @@ def run_task(ctx, lane, **kw):
         attribute_matrix(ctx, kw["attr"])
     elif lane == "adjacent":
         adjacent_pairs(ctx)
+        image_name_collision(ctx)
     elif lane == "readonly":
         check_readonly(ctx, {"lane": "readonly", "fixture": kw["fixture"]})
     elif lane == "borders":
